@@ -137,7 +137,8 @@ fn render_exchange(x: &[ConnExpect]) -> String {
 #[derive(Clone)]
 enum What {
     /// generic dispatch of a GAMES entry
-    Game { id: &'static str, port: Option<u16>, v6: bool },
+    /// (address kind: 0 IPv4, 1 a global IPv6 address, 2 an IPv6 address of the ::/96 block - the loopback ::1)
+    Game { id: &'static str, port: Option<u16>, v6: u8 },
     /// protocol-level target (index into protocol_targets())
     Protocol(usize),
     /// Valve challenge values lo..hi of stratum s on all three requests
@@ -188,9 +189,9 @@ fn build(tier: Tier) -> Vec<Case> {
     ids.sort();
     for id in ids {
         for port in [None, Some(PORT)] {
-            for v6 in [false, true] {
+            for v6 in [0u8, 1, 2] {
                 v.push(Case {
-                    label: format!("generic dispatch '{id}' port={port:?} {}", if v6 { "ipv6" } else { "ipv4" }),
+                    label: format!("generic dispatch '{id}' port={port:?} {}", ["ipv4", "ipv6", "ipv6 ::1"][v6 as usize]),
                     what: What::Game { id, port, v6 },
                 });
             }
@@ -299,7 +300,7 @@ impl Prop for C09 {
     fn n_cases(&self, tier: Tier) -> usize { cases(tier).len() }
     fn case_label(&self, tier: Tier, idx: usize) -> String { cases(tier)[idx].label.clone() }
     fn rule(&self) -> String {
-        "(a) every GAMES entry x port given/omitted x IPv4/IPv6 through the generic dispatch, and every protocol-level entry \
+        "(a) every GAMES entry x port given/omitted x {IPv4, a global IPv6 address, ::1} through the generic dispatch, and every protocol-level entry \
          point: the complete wire log (connections opened with transport and destination, every request's bytes, in order) \
          must equal what the protocol prescribes against the reference server (nothing else is sent). (b) Valve challenge \
          values: all 12^4 values over {00,01,0A,22,41,49,5C,7F,80,FE,FF,54} plus all 0x0000xxxx and 0xxxxx0000 (thorough: also \
@@ -325,7 +326,7 @@ impl Prop for C09 {
                     ctx.counters.evaluations += 1;
                     return;
                 };
-                let ip = if v6 { IP6 } else { IP4 };
+                let ip = match v6 { 0 => IP4, 1 => IP6, _ => IpAddr::V6(Ipv6Addr::LOCALHOST) };
                 let server = server_for_game(game).unwrap();
                 explore(
                     ctx,
